@@ -16,6 +16,7 @@ let hex_of_bytes l =
   if l = [] then "-" else String.concat "" (List.map (fun z -> let v = int_of_z z in
     if v < 0 || v > 255 then Printf.sprintf "<%d>" v else Printf.sprintf "%02x" v) l)
 let zi s = z_of_int (int_of_string s)
+let rec nat_of_int n = if n <= 0 then O else S (nat_of_int (n - 1))
 let zs z = string_of_int (int_of_z z)
 
 let crash_name = function
@@ -41,6 +42,23 @@ let handle (w : string list) : string =
   | ["t2_write"; m; d] ->
     let ((((r, ws), m'), f), c) = t2_write_obs (bytes_of_hex m) (bytes_of_hex d) in
     String.concat " | " [show_res (fun _ -> "") r; show_cmds ws; hex_of_bytes m'; show_fresh f; show_cap c]
+  | ["t2_retry"; m; d; k1; f] ->
+    (match t2_retry_obs (bytes_of_hex m) (bytes_of_hex d) (nat_of_int (int_of_string k1)) (if f = "lost" then Lost else Unanswered) with
+     | None -> "none"
+     | Some (((((m1, from), cache), r), ws), fs) ->
+       String.concat " | " [hex_of_bytes m1; hex_of_bytes from; hex_of_bytes cache; show_res (fun _ -> "") r; show_cmds ws;
+                            String.concat ";" (List.map show_fresh fs)])
+  | ["t2_rewrite"; m; d1; k1; f; d2] ->
+    (match t2_rewrite_obs (bytes_of_hex m) (bytes_of_hex d1) (nat_of_int (int_of_string k1)) (if f = "lost" then Lost else Unanswered) (bytes_of_hex d2) with
+     | None -> "none"
+     | Some (((m1, r), ws), fs) ->
+       String.concat " | " [hex_of_bytes m1; show_res (fun _ -> "") r; show_cmds ws; String.concat ";" (List.map show_fresh fs)])
+  | ["t1_rewrite"; hr; m; d1; k1; f; d2] ->
+    let hr0 = List.hd (bytes_of_hex hr) in
+    (match t1_rewrite_obs hr0 (bytes_of_hex m) (bytes_of_hex d1) (nat_of_int (int_of_string k1)) (if f = "lost" then Lost else Unanswered) (bytes_of_hex d2) with
+     | None -> "none"
+     | Some (((m1, r), ws), fs) ->
+       String.concat " | " [hex_of_bytes m1; show_res (fun _ -> "") r; show_cmds ws; String.concat ";" (List.map show_fresh fs)])
   | ["t2_cut"; m; d] -> String.concat ";" (List.map show_fresh (t2_cut_obs (bytes_of_hex m) (bytes_of_hex d)))
   | ["t2_format"; m; wp] ->
     let ((((r, ws), m'), f), c) = t2_format_obs (bytes_of_hex m) (wipe_arg wp) in
@@ -62,6 +80,13 @@ let handle (w : string list) : string =
     let ((((r, ws), m'), f), c) = t1_format_obs (List.nth h 0) (List.nth h 1) (bytes_of_hex m) (wipe_arg wp) in
     let show_ob = function Some b -> " " ^ show_bool b | None -> " none" in
     String.concat " | " [show_res show_ob r; show_cmds ws; hex_of_bytes m'; show_fresh f; show_cap c]
+  | ["t1_retry"; hr; m; d; k1; f] ->
+    let hr0 = List.hd (bytes_of_hex hr) in
+    (match t1_retry_obs hr0 (bytes_of_hex m) (bytes_of_hex d) (nat_of_int (int_of_string k1)) (if f = "lost" then Lost else Unanswered) with
+     | None -> "none"
+     | Some (((((m1, from), cache), r), ws), fs) ->
+       String.concat " | " [hex_of_bytes m1; hex_of_bytes from; hex_of_bytes cache; show_res (fun _ -> "") r; show_cmds ws;
+                            String.concat ";" (List.map show_fresh fs)])
   | ["t1_cut"; hr; m; d] ->
     let hr0 = List.hd (bytes_of_hex hr) in
     String.concat ";" (List.map show_fresh (t1_cut_obs hr0 (bytes_of_hex m) (bytes_of_hex d)))
